@@ -258,5 +258,5 @@ func runC09(c c09Case) *Violation {
 func TestC09(t *testing.T) {
 	Ev.Rule = "case = IngestBufferSize 1-8, MaxBufferedRows 1-5, 1-3 rows per batch, MaxBufferedTime 1h or 40 ms (shorter than the stall), the store stalled by a ctx-ignoring gate at the 1st/2nd CreateFile/Write/Close/Update for 150-300 ms (or, in a quarter of the cases, every Write/Close failing and the gate inside the failed flush's cleanup: the 1st/2nd Abort/TombstoneFile), 1-6 producers hammering IngestRows with 5 ms ctx timeouts (optionally trickling), 0-2 goroutines calling Flush during the stall. Oracle: at the end of the stall accepted - answered <= IngestBufferSize + 4*ceil(MaxBufferedRows/rowsPerBatch) + 2 (confirmed by two re-executions); after release Stop returns nil and every accepted batch has exactly one answer. Non-trivial: producers attempted >= 3x the bound during the stall; distinct by case."
 	Ev.Assumptions = []string{"the bound is the harness's reading of 'ingest buffer size plus a few flushes' worth of batches': ingest queue + stalled flush + queued flush + the flush the actor is trying to enqueue, with slack"}
-	runChecks(t, "stalls", 60, 1500, genC09(), runC09)
+	runChecks(t, "stalls", 60, 4500, genC09(), runC09)
 }
